@@ -121,6 +121,10 @@ def run_check(prop, tier, seed, args):
     for cls, item in list(new_classes.items())[:4]:
         case, sched = item['case'], item['sched']
         res = R.replay_once(prop, case, sched)
+        for _ in range(getattr(prop, 'REPLAY_RETRIES', 0)):
+            if R.has_class(res, cls):
+                break
+            res = R.replay_once(prop, case, sched)
         if not R.has_class(res, cls):
             harness_err.append(
                 f'nondeterministic: violation {cls} of seed {item["seed"]} '
@@ -129,7 +133,8 @@ def run_check(prop, tier, seed, args):
         if not args.no_shrink:
             case, sched, res, nruns = R.shrink(prop, case, sched, cls)
         path = R.write_replay(prop.ID, item['seed'], case, sched, res, cls)
-        fd = fresh_digest(prop.ID, path)
+        fd = fresh_digest(prop.ID, path) \
+            if getattr(prop, 'DIGEST_STABLE', True) else res.get('digest')
         if fd != res.get('digest'):
             harness_err.append(
                 f'replay digest differs in a fresh interpreter: {path} '
@@ -140,6 +145,33 @@ def run_check(prop, tier, seed, args):
         reported.append({'class': list(cls), 'replay': path,
                          'detail': viol['detail']})
         exit_code = 1
+
+    # property-specific checks outside the simulated batch (e.g. fresh
+    # interpreters under different hash seeds)
+    extra_stats = {}
+    if hasattr(prop, 'extra_checks'):
+        ev, extra_stats = prop.extra_checks(tier, seed)
+        seen = set()
+        for v in ev:
+            if R.vclass(v) in seen:
+                continue
+            seen.add(R.vclass(v))
+            d = os.path.join(
+                os.environ.get('VERIF_EVIDENCE_DIR') or VERIF, 'replays',
+                'found') if not os.environ.get('VERIF_EVIDENCE_DIR') else \
+                os.path.join(os.environ['VERIF_EVIDENCE_DIR'], 'replays')
+            os.makedirs(d, exist_ok=True)
+            path = os.path.join(d, f'{prop.ID}-extra-{v["key"]}.json')
+            with open(path, 'w') as f:
+                json.dump({'property': prop.ID, 'kind': 'extra_checks',
+                           'expected_violation': v}, f, indent=1)
+            lines.append(f'VIOLATION property={prop.ID} replay={path}')
+            lines.append(f'  {v["oracle"]} {v["key"]}: {v["detail"]}')
+            reported.append({'class': [v['oracle'], v['key']],
+                             'replay': path, 'detail': v['detail']})
+            exit_code = 1
+        for kk, vv in extra_stats.items():
+            agg.probes[kk] = agg.probes.get(kk, 0) + vv
 
     for l in known_lines.values():
         print(l)
